@@ -40,3 +40,117 @@ def out_alphabet(name):
     component contains only the characters RFC 3986 allows')"""
     comp, _ = QUOTERS[name]
     return "".join(sorted(set(LIT[comp] + "%" + UPPER_HEX)))
+
+
+# ---------------------------------------------------------------- token-level specification (DESIGN 4.2)
+#
+# A quoter reads its input as a sequence of tokens and writes the canonical spelling (unit) of
+# each:   "%HH" (hex digits in either case, only when the quoter re-quotes already encoded
+# text)  -> the byte 0xHH written literally if it is a literal of the component and not one of
+# its protected delimiters, else "%HH" in upper case;   a "%" not followed by two hex digits,
+# or met by a quoter of decoded text -> "%25";   a space in a query -> "+";   a literal of
+# the component -> itself;   any other byte -> "%HH" upper case.
+
+PROTECTED = {
+    "QUOTER": "", "REQUOTER": "", "PATH_QUOTER": "/+", "PATH_REQUOTER": "/+",
+    "QUERY_QUOTER": "=+&;", "QUERY_REQUOTER": "=+&;", "QUERY_PART_QUOTER": "",
+    "FRAGMENT_QUOTER": "", "FRAGMENT_REQUOTER": "",
+}
+QS = {"QUERY_QUOTER", "QUERY_REQUOTER", "QUERY_PART_QUOTER"}
+
+
+def literal_set(name):
+    comp, _ = QUOTERS[name]
+    s = LIT[comp]
+    if name == "QUERY_PART_QUOTER":
+        # keys and values: the pair / key-value delimiters themselves must be escaped (C12)
+        s = "".join(c for c in s if c not in "=+&;")
+    return s
+
+
+INSTANCE_NAME = {}        # id(quoter instance) -> name in yarl/_quoters.py (filled by the registry)
+
+
+def component_alphabet(quoter):
+    """RFC 3986 literal set of the component the instance serves (what C01 allows there)"""
+    return LIT[QUOTERS[INSTANCE_NAME[id(quoter)]][0]]
+
+
+def config_of(quoter):
+    """(literal set, protected delimiters, qs, requote) the specification assigns to an instance"""
+    name = INSTANCE_NAME[id(quoter)]
+    return (literal_set(name), PROTECTED[name], name in QS, QUOTERS[name][1])
+
+
+def hexch(d):
+    if d < 10:
+        return d + 48
+    return d + 55
+
+
+def hexval(c):
+    if 48 <= c and c <= 57:
+        return c - 48
+    if 65 <= c and c <= 70:
+        return c - 55
+    if 97 <= c and c <= 102:
+        return c - 87
+    return -1
+
+
+def upper_byte(c):
+    return c - 32 if (97 <= c and c <= 122) else c
+
+
+def q_step(quoter, B, p):
+    """(unit, consumed) for the token that starts at byte p of B"""
+    lit_set, protected, qs, requote = config_of(quoter)
+    n = len(B)
+    ch = B[p]
+    if requote and ch == 37:
+        if p + 2 < n:
+            h1 = hexval(B[p + 1])
+            h2 = hexval(B[p + 2])
+            if h1 >= 0 and h2 >= 0:
+                v = h1 * 16 + h2
+                if v < 128 and chr(v) in lit_set and not (chr(v) in protected):
+                    return (v,), 3
+                return (37, hexch(h1), hexch(h2)), 3
+        return (37, 50, 53), 1
+    if qs and ch == 32:
+        return (43,), 1
+    if ch < 128 and chr(ch) in lit_set:
+        return (ch,), 1
+    return (37, hexch(ch // 16), hexch(ch % 16)), 1
+
+
+def q_spec(quoter, val):
+    """the whole quoter, executable (replay oracle): canonical spelling of every token of the
+    UTF-8 bytes of val (lone surrogates dropped)"""
+    if val is None:
+        return None
+    if not isinstance(val, str):
+        raise TypeError("Argument should be str")
+    B = val.encode("utf8", errors="ignore")
+    out = []
+    p = 0
+    while p < len(B):
+        unit, k = q_step(quoter, B, p)
+        out.extend(unit)
+        p += k
+    return bytes(out).decode("ascii")
+
+
+def lemma_unit_alphabet(quoter, B, p):
+    """C01: every unit is one literal of the component, or '%' followed by two upper-case hex
+    digits -- so the output is ASCII, in the component's alphabet, and every '%' starts an escape"""
+    allowed = component_alphabet(quoter)
+    unit, k = q_step(quoter, B, p)
+    if len(unit) == 1:
+        return unit[0] < 128 and chr(unit[0]) in allowed and unit[0] != 37 and (k == 1 or k == 3)
+    return (len(unit) == 3 and unit[0] == 37 and chr(unit[1]) in UPPER_HEX and chr(unit[2]) in UPPER_HEX
+            and (k == 1 or k == 3))
+
+
+def lemma_requires(quoter, B, p):
+    return 0 <= p and p < len(B)
